@@ -31,7 +31,7 @@ static rc::Gen<Step> genStep(const std::string &focus)
 	auto kind = gen::weightedElement<int>({{wc, K_CORRECT}, {wr, K_CACHE_RESET}, {we, K_ERROR}, {wn, K_NOANSWER}, {wf, K_FAULTY}, {wv, K_V0}, {wh, K_HOSTILE}, {wraw, K_RAW}});
 	auto part1 = gen::tuple(kind, gen::weightedElement<int>({{12, 0}, {2, 1}, {1, 2}}), /* open_fails */
 				gen::weightedElement<int>({{10, 0}, {2, 1}, {1, 2}, {1, 3}, {1, 4}, {2, 5}, {2, 6}, {1, 7}, {1, 8}}), /* open_delay */
-				gen::weightedElement<int>({{14, S_OK}, {3, S_PARTIAL}, {1, S_ERROR}, {1, S_WOULDBLOCK}, {1, S_INTR}, {1, S_PARTIAL_THEN_ERROR}, {focus == "C14" ? 4 : 1, S_SLOW_PARTIAL}, {focus == "C14" ? 3 : 1, S_PARTIAL_THEN_INTR}}),
+				gen::weightedElement<int>({{14, S_OK}, {3, S_PARTIAL}, {1, S_ERROR}, {1, S_WOULDBLOCK}, {1, S_INTR}, {1, S_PARTIAL_THEN_ERROR}, {focus == "C14" ? 4 : 1, S_SLOW_PARTIAL}, {focus == "C14" ? 3 : 1, S_PARTIAL_THEN_INTR}, {focus == "C08" ? 3 : 1, S_ERROR_STICKY}}),
 				gen::weightedElement<int>({{8, 0}, {12, 1}, {4, 2}, {2, 3}, {2, 4}, {1, 5}}), /* advance */
 				gen::oneOf(genMask(0), genMask(0), genMask(1)), gen::weightedElement<int>({{focus == "C18" ? 14 : 24, 0}, {1, 1}, {2, 2}, {1, 3}, {1, 4}, {1, 5}, {1, 6}, {1, 7}, {1, 8}}) /* bulk */,
 				gen::weightedElement<int>({{15, 0}, {1, 1}}) /* new_session */);
@@ -40,7 +40,7 @@ static rc::Gen<Step> genStep(const std::string &focus)
 				rng<int>(0, 15), rng<int>(0, 5), gen::weightedOneOf<int>({{3, rng<int>(0, 3)}, {focus == "C04" ? 3 : 1, rng<int>(4, 7)}}), rng<int>(0, 255));
 	int wiv = focus == "C17" ? 1 : 4;
 	auto ivg = gen::weightedOneOf<int>({{wiv, gen::element<int>(6, 8, 1, 17, 18)}, {2, rng<int>(0, IV_N - 1)}});
-	auto idle = gen::weightedElement<int>({{10, I_TIMEOUT}, {2, I_INTR}, {3, I_CLOSE}, {2, I_ERROR}, {3, I_NOTIFY}, {focus == "C07" || focus == "C05" ? 3 : 1, I_STOP_RESTART}, {focus == "C17" ? 4 : 1, I_LATE_INTR}, {focus == "C07" ? 4 : 1, I_STOP_MIDSYNC}, {focus == "C04" ? 4 : 1, I_STRAY}});
+	auto idle = gen::weightedElement<int>({{10, I_TIMEOUT}, {2, I_INTR}, {3, I_CLOSE}, {2, I_ERROR}, {3, I_NOTIFY}, {focus == "C07" || focus == "C05" ? 3 : 1, I_STOP_RESTART}, {focus == "C17" ? 4 : 1, I_LATE_INTR}, {focus == "C07" ? 4 : 1, I_STOP_MIDSYNC}, {focus == "C04" ? 4 : 1, I_STRAY}, {focus == "C17" ? 4 : 1, I_PARTIAL_NOTIFY}});
 	auto part3 = gen::tuple(ivg, ivg, ivg, rng<int>(0, 255), gen::weightedElement<int>({{4, 0}, {2, 1}, {3, 2}, {1, 3}}), gen::weightedElement<int>({{5, 0}, {1, 1}}), idle, idle, idle,
 				rng<int>(0, 255), gen::container<std::vector<uint8_t>>(gen::arbitrary<uint8_t>()));
 	return gen::apply(
